@@ -473,7 +473,7 @@ class PDDLWriter:
             pddl_types = [
                 self._get_mangled_name(t)
                 for t in self.problem.user_types
-                if cast(_UserType, t).name != "object"
+                if self._get_mangled_name(t) != "object"
             ]
             out.write(
                 f" (:types {' '.join(pddl_types)})\n" if len(pddl_types) > 0 else ""
@@ -943,8 +943,12 @@ class PDDLWriter:
             assert item.is_user_type()
             original_name = cast(_UserType, item).name
             tmp_name = _get_pddl_name(item, self.pddl_keywords)
-            # If the problem is hierarchical and the name is object, we want to change it
-            if self.problem_kind.has_hierarchical_typing() and tmp_name == "object":
+            # If the name is object we want to change it, unless it is the only type of a
+            # flat typing: PDDL's `object` is the supertype of every other type
+            if tmp_name == "object" and (
+                self.problem_kind.has_hierarchical_typing()
+                or len(self.problem.user_types) > 1
+            ):
                 tmp_name = f"{tmp_name}_"
         else:
             original_name = item.name
